@@ -535,26 +535,32 @@ Proof.
   exists (fun y => 0 < y). split; [apply exp_bij|]. cbn. tauto.
 Qed.
 
-(* a planar layer meeting the hypotheses: w = (1, 0), raw act_scale (0, 0), slope 1/2 *)
-Lemma ex_planar_ok : -1 < dot ROps [1; 0] (planar_u ROps [1; 0] [0; 0]).
-Proof.
-  unfold planar_u, vadd, lift2, Num.c. cbn [map combine fst snd]. rewrite !dotR_cons, !dotR_nil_l. rops.
-  replace (1 * 1 + (0 * 0 + 0)) with 1 by ring. rewrite sqrt_1.
-  replace (0 * 1 + (0 * 0 + 0)) with 0 by ring. rewrite exp_0.
-  assert (H2 : 0 < ln (1 + 1)) by (rewrite <- ln_1; apply ln_increasing; lra).
-  assert (H3 : 0 < ln (1 + ln (1 + 1))) by (rewrite <- ln_1 at 1; apply ln_increasing; lra).
-  set (L := ln (1 + ln (1 + 1))) in *.
-  replace (1 * (0 + (-1 + L - 0) * 1 / (1 * 1)) + (0 * (0 + (-1 + L - 0) * 0 / (1 * 1)) + 0)) with (-1 + L) by field.
-  lra.
-Qed.
+(* the parameters that broke the layer before fix D7 (negative_slope = 2, act_scale = (-5, 0)) now
+   round-trip, at the formerly colliding point (-1, 3/10) *)
+Lemma ex_planar_roundtrip :
+  planar_inv ROps 2 [1; 0] [-5; 0] 0 (planar_fwd ROps (Some 2) [1; 0] [-5; 0] 0 [-1; 3 / 10]) = [-1; 3 / 10].
+Proof. apply planar_inv_fwd; [lra | constructor; lra | reflexivity | reflexivity]. Qed.
+
 Lemma ex_leaky_roundtrip :
   leaky_inv ROps 3 (leaky_grad ROps 3) (leaky_icpt ROps 3) (leaky_fwd ROps 3 (leaky_grad ROps 3) (leaky_icpt ROps 3) 3) = 3.
 Proof. apply leaky_inv_fwd. lra. Qed.
 
 (* ------------------------------------------------------------------------------------ *)
-(* The guard s <= 1 of the Planar theorems is necessary (candidate found by the C02 proof) *)
+(* Planar before fix D7 (e65a946): get_act_scale without the division by max(1, s)         *)
 (* ------------------------------------------------------------------------------------ *)
-(* get_act_scale guarantees only -1 < w.u-hat; _UnconditionalPlanar.__init__ rejects only s <= 0.
+(* transform / inverse of the layer built with the old act-scale formula [planar_u_old] *)
+Definition planar_fwd_old (s : R) (w u0 : list R) (b : R) (x : list R) : list R :=
+  pl_fwd s w (planar_u_old ROps w u0) b x.
+Definition planar_inv_old (s : R) (w u0 : list R) (b : R) (y : list R) : list R :=
+  pl_inv s w (planar_u_old ROps w u0) b y.
+(* for slopes <= 1 the repair changes nothing *)
+Lemma planar_u_old_same s w u0 : s <= 1 -> planar_u ROps (Some s) w u0 = planar_u_old ROps w u0.
+Proof.
+  intros Hs. unfold planar_u, planar_u_old. rewrite planar_k_some. rewrite Rmax_left by lra.
+  unfold Num.c. rops. unfold vadd. f_equal. apply map_ext. intros wi. f_equal. f_equal. f_equal. field.
+Qed.
+
+(* The old formula guaranteed only -1 < w.u-hat and the constructor rejects only s <= 0.
    With w = (1,0), raw act_scale (0,0):  w.u-hat = M := -1 + ln(1 + ln 2) in (-1,0); for the negative
    slope s = -2/M > 1 the map has slope 1 + s M = -1 on the half-space w.x + b < 0: it is not
    injective and the analytic inverse does not undo it. *)
@@ -571,47 +577,45 @@ Proof.
   { apply Rlt_le_trans with (ln (exp 1)); [apply ln_increasing; lra | rewrite ln_exp; lra]. }
   lra.
 Qed.
-Lemma ex_planar_u : planar_u ROps [1; 0] [0; 0] = [ex_M; 0].
+Lemma ex_planar_u_old : planar_u_old ROps [1; 0] [0; 0] = [ex_M; 0].
 Proof.
-  unfold planar_u, vadd, lift2, Num.c. cbn [map combine fst snd]. rewrite !dotR_cons, !dotR_nil_l. rops.
+  unfold planar_u_old, vadd, lift2, Num.c. cbn [map combine fst snd]. rewrite !dotR_cons, !dotR_nil_l. rops.
   replace (1 * 1 + (0 * 0 + 0)) with 1 by ring. rewrite sqrt_1.
   replace (0 * 1 + (0 * 0 + 0)) with 0 by ring. rewrite exp_0. fold ex_M.
   f_equal; [field | f_equal; field].
 Qed.
-Lemma ex_planar_fwd_neg : planar_fwd ROps (Some (-2 / ex_M)) [1; 0] [0; 0] 0 [-1; 0] = [1; 0].
+Lemma ex_planar_fwd_neg : planar_fwd_old (-2 / ex_M) [1; 0] [0; 0] 0 [-1; 0] = [1; 0].
 Proof.
   pose proof ex_M_range as HM.
-  unfold planar_fwd. rewrite ex_planar_u.
-  unfold planar_act, leaky_relu, geb, where_, vadd, vscale, lift2, Num.c. rewrite !dotR_cons, !dotR_nil_l. rops.
+  unfold planar_fwd_old, pl_fwd. rewrite ex_planar_u_old.
+  unfold leaky_relu, geb, where_, vadd, vscale, lift2, Num.c. rewrite !dotR_cons, !dotR_nil_l. rops.
   rewrite (Rleb_f 0 (1 * -1 + (0 * 0 + 0) + 0)) by lra.
   cbn [map combine fst snd]. f_equal; [field; lra | f_equal; field; lra].
 Qed.
-Lemma ex_planar_fwd_pos : planar_fwd ROps (Some (-2 / ex_M)) [1; 0] [0; 0] 0 [1 / (1 + ex_M); 0] = [1; 0].
+Lemma ex_planar_fwd_pos : planar_fwd_old (-2 / ex_M) [1; 0] [0; 0] 0 [1 / (1 + ex_M); 0] = [1; 0].
 Proof.
   pose proof ex_M_range as HM.
   assert (Hq : 0 < 1 / (1 + ex_M)) by (apply Rdiv_lt_0_compat; lra).
-  unfold planar_fwd. rewrite ex_planar_u.
-  unfold planar_act, leaky_relu, geb, where_, vadd, vscale, lift2, Num.c. rewrite !dotR_cons, !dotR_nil_l. rops.
+  unfold planar_fwd_old, pl_fwd. rewrite ex_planar_u_old.
+  unfold leaky_relu, geb, where_, vadd, vscale, lift2, Num.c. rewrite !dotR_cons, !dotR_nil_l. rops.
   rewrite (Rleb_t 0 (1 * (1 / (1 + ex_M)) + (0 * 0 + 0) + 0)) by lra.
   cbn [map combine fst snd]. f_equal; [field; lra | f_equal; field; lra].
 Qed.
-Lemma ex_planar_inv_val : planar_inv ROps (-2 / ex_M) [1; 0] [0; 0] 0 [1; 0] = [1 / (1 + ex_M); 0].
+Lemma ex_planar_inv_val : planar_inv_old (-2 / ex_M) [1; 0] [0; 0] 0 [1; 0] = [1 / (1 + ex_M); 0].
 Proof.
   pose proof ex_M_range as HM.
-  unfold planar_inv. rewrite ex_planar_u.
+  unfold planar_inv_old, pl_inv. rewrite ex_planar_u_old.
   unfold where_, vsub, vscale, lift2, Num.c. rewrite !dotR_cons, !dotR_nil_l. rops.
   rewrite (Rltb_f (1 * 1 + (0 * 0 + 0) + 0) 0) by lra.
   cbn [map]. rewrite !dotR_cons, !dotR_nil_l.
   cbn [map combine fst snd]. f_equal; [field; lra | f_equal; field; lra].
 Qed.
 
-(* every hypothesis of planar_inv_fwd except s <= 1 holds, yet the map is not injective and
-   inverse (transform x) <> x *)
-Lemma planar_slope_gt1_refuted : exists s w u0 b x x',
+Lemma planar_old_slope_gt1_refuted : exists s w u0 b x x',
   1 < s /\ Exists (fun wi => wi <> 0) w /\ length u0 = length w /\ length x = length w /\ length x' = length w /\
-  -1 < dot ROps w (planar_u ROps w u0) /\
-  x <> x' /\ planar_fwd ROps (Some s) w u0 b x = planar_fwd ROps (Some s) w u0 b x' /\
-  planar_inv ROps s w u0 b (planar_fwd ROps (Some s) w u0 b x) <> x.
+  -1 < dot ROps w (planar_u_old ROps w u0) /\
+  x <> x' /\ planar_fwd_old s w u0 b x = planar_fwd_old s w u0 b x' /\
+  planar_inv_old s w u0 b (planar_fwd_old s w u0 b x) <> x.
 Proof.
   pose proof ex_M_range as HM.
   assert (Hq : 0 < 1 / (1 + ex_M)) by (apply Rdiv_lt_0_compat; lra).
@@ -619,7 +623,7 @@ Proof.
   repeat split; try reflexivity.
   - apply Rmult_lt_reg_r with (- ex_M); [lra|]. replace (-2 / ex_M * - ex_M) with 2 by (field; lra). lra.
   - constructor. lra.
-  - exact ex_planar_ok.
+  - rewrite ex_planar_u_old, !dotR_cons, dotR_nil_l. lra.
   - intro H. injection H as H. lra.
   - now rewrite ex_planar_fwd_neg, ex_planar_fwd_pos.
   - rewrite ex_planar_fwd_neg, ex_planar_inv_val. intro H. injection H as H. lra.
